@@ -83,6 +83,10 @@ fn net_rule(r: &mut Rng) -> String {
         }
         _ => s.push_str(&pat(r)),
     }
+    if r.chance(1, 12) {
+        // a `$` and option-like text inside the pattern (the option section starts at the last `$`)
+        s.push_str(r.ps(&["$size?domain=a.example|~b.example", "$x=1", "?a=$b,domain=~c.example"]));
+    }
     let mut o: Vec<String> = vec![];
     if r.chance(1, 3) {
         o.push(
@@ -110,7 +114,12 @@ fn net_rule(r: &mut Rng) -> String {
             if r.chance(1, 4) {
                 d.push('~');
             }
-            d.push_str(r.ps(HOSTS));
+            if r.chance(1, 8) {
+                // regex-form entry (the network parser ignores these)
+                d.push_str(r.ps(&["/beta[0-9]+\\.news\\.example/", "/^x/"]));
+            } else {
+                d.push_str(r.ps(HOSTS));
+            }
         }
         o.push(d);
     }
@@ -242,7 +251,62 @@ fn convert(lines: &[String]) -> Result<Result<(Vec<CbRule>, Vec<String>), ()>, S
     })
 }
 
+/// Rule sets that (also) come from a hosts-format source: conversion must stay total and ASCII.
+fn hosts_sources(ctx: &mut Ctx) {
+    use adblock::lists::FilterFormat;
+    let sub = "hosts";
+    let cases = ctx.n(20_000, 600_000);
+    const ENTRIES: &[&str] = &[
+        "127.0.0.1 ads.example.com", "0.0.0.0 Track.Example.COM", "www.sub.example.org", "::1 b\u{fc}cher.example", "0.0.0.0 M\u{dc}NCHEN.example",
+        "0.0.0.0 a.b.co.uk # comment", ".dot.example.com", "# comment", "127.0.0.1 localhost", "0.0.0.0 \u{65e5}\u{672c}.example", "nodots", "0.0.0.0 xn--bcher-kva.example",
+    ];
+    for idx in 0..cases {
+        if ctx.stop() {
+            break;
+        }
+        if !ctx.begin_case(sub, idx) {
+            continue;
+        }
+        let seed = ctx.seed;
+        let mut r = Rng::for_case(seed, "c20.hosts", idx);
+        let hosts: Vec<String> = (0..1 + r.below(5)).map(|_| r.ps(ENTRIES).to_string()).collect();
+        let std: Vec<String> = (0..r.below(3)).map(|_| net_rule(&mut r)).collect();
+        let hosts_first = r.chance(1, 2);
+        ctx.eval();
+        let out = guarded(|| {
+            let mut fs = FilterSet::new(true);
+            let hopts = ParseOptions { format: FilterFormat::Hosts, ..Default::default() };
+            if hosts_first {
+                fs.add_filters(&hosts, hopts);
+                fs.add_filters(&std, ParseOptions::default());
+            } else {
+                fs.add_filters(&std, ParseOptions::default());
+                fs.add_filters(&hosts, hopts);
+            }
+            fs.into_content_blocking()
+        });
+        match out {
+            Err(sig) => ctx.violation(sub, idx, &format!("C20:{}", sig), json!({"hosts_lines": hosts, "standard_rules": std})),
+            Ok(Err(())) => ctx.violation(sub, idx, "C20:debug-mode-set-rejected", json!({"hosts_lines": hosts, "standard_rules": std})),
+            Ok(Ok((cb, used))) => {
+                if !cb.is_empty() {
+                    ctx.nontrivial(fnv(&format!("{:?}{:?}", hosts, std)));
+                }
+                ctx.obs("emitted_rules_from_hosts_sets", cb.len() as i64);
+                let text = serde_json::to_string(&cb).unwrap_or_default();
+                if !text.is_ascii() {
+                    ctx.violation(sub, idx, "C20:non-ascii-rule", json!({"hosts_lines": hosts, "standard_rules": std}));
+                }
+                if used.len() > hosts.len() + std.len() {
+                    ctx.violation(sub, idx, "C20:filters_used-longer-than-input", json!({"hosts_lines": hosts, "filters_used": used}));
+                }
+            }
+        }
+    }
+}
+
 pub fn run(ctx: &mut Ctx) {
+    hosts_sources(ctx);
     let sub = "export";
     let cases = ctx.n(250_000, 16_000_000);
     for idx in 0..cases {
